@@ -2,6 +2,8 @@ package main
 
 import (
 	"fmt"
+
+	"github.com/bradenaw/juniper/chans"
 	"os"
 	"reflect"
 	"sync"
@@ -76,4 +78,43 @@ func cmdRace(args []string) {
 	}
 	emit("REPORT", map[string]any{"engine": "race", "subject": "tree", "variants": 5, "goroutines": 12, "keys": 3000})
 	os.Exit(0)
+}
+
+// cmdMergeNil: chans.Merge must deliver a nil value of an interface element type through each of
+// its code paths (1, 2, 3 and >= 4 inputs).
+func cmdMergeNil(args []string) {
+	for n := 1; n <= 5; n++ {
+		func() {
+			defer func() {
+				if p := recover(); p != nil {
+					emit("VIOL", map[string]any{"what": fmt.Sprintf("chans.Merge with %d inputs of an interface element type panics on a nil value: %v", n, p),
+						"sig": map[string]any{"subject": "chans.Merge-nil", "arity": n}})
+				}
+			}()
+			in := make([]chan error, n)
+			ro := make([]<-chan error, n)
+			for i := range in {
+				in[i] = make(chan error, 2)
+				in[i] <- nil
+				in[i] <- fmt.Errorf("e%d", i)
+				close(in[i])
+				ro[i] = in[i]
+			}
+			out := make(chan error, 2*n)
+			chans.Merge(out, ro...)
+			close(out)
+			nils, total := 0, 0
+			for v := range out {
+				total++
+				if v == nil {
+					nils++
+				}
+			}
+			if nils != n || total != 2*n {
+				emit("VIOL", map[string]any{"what": fmt.Sprintf("chans.Merge with %d inputs delivered %d values (%d nil), want %d (%d nil)", n, total, nils, 2*n, n),
+					"sig": map[string]any{"subject": "chans.Merge-nil", "arity": n}})
+			}
+		}()
+	}
+	emit("REPORT", map[string]any{"engine": "vector", "subject": "chans.Merge nil values", "arities": 5})
 }
